@@ -17,6 +17,18 @@ def key_of(rj):
         return 'trace'
 
 
+def bind(ck, wd, part='all', tag='c10'):
+    """binding of the real Argon2 fill to the TLA+ Argon2d (part 'reduced' is also used by C02 for the cache arrow)"""
+    exe = vlib.build_harness('rx_argon', extra=['-fno-access-control'])
+    os.makedirs(wd, exist_ok=True)
+    outp = os.path.join(wd, tag + '_argon.ndjson')
+    lines = vlib.run_harness([exe, '--seed', str(ck.seed), '--tier', ck.tier, '--part', part, '--out', outp], outp, timeout=1800)
+    res = vlib.validate_sharded('TraceArgon', 'TraceArgon.cfg', lines, tag, shards=16, timeout=3000, xmx='4g')
+    ck.add_traces('TraceArgon', res, 'reduced instances recomputed completely by the TLA+ Argon2d; full-size fill checked block by block at sampled positions (index mapping + compression); implementation / re-keying difference counts')
+    ck.reject('TraceArgon', res, key_of)
+    return lines, res
+
+
 def run():
     ck = vlib.Check('C10', 'model_checking')
     wd = os.path.join(vlib.WORK, 'c10')
@@ -27,12 +39,7 @@ def run():
         ck.add_model(cfg[:-4], r, 'segment schedule with J1 chosen from a boundary set at every step; ' + what)
         if not r['ok']:
             ck.violation('model:' + cfg, 'Argon2 schedule model violates an invariant', vlib.tlc_error_summary(r['out'], 40))
-    exe = vlib.build_harness('rx_argon', extra=['-fno-access-control'])
-    outp = os.path.join(wd, 'argon.ndjson')
-    lines = vlib.run_harness([exe, '--seed', str(ck.seed), '--tier', ck.tier, '--out', outp], outp, timeout=1800)
-    res = vlib.validate_sharded('TraceArgon', 'TraceArgon.cfg', lines, 'c10', shards=16, timeout=3000, xmx='4g')
-    ck.add_traces('TraceArgon', res, 'reduced instances recomputed completely by the TLA+ Argon2d; full-size fill checked block by block at sampled positions (index mapping + compression); implementation / re-keying difference counts')
-    ck.reject('TraceArgon', res, key_of)
+    lines, res = bind(ck, wd)
     ck.cov['reduced_instances'] = sum(1 for l in lines if l.startswith('{"e":"argon"'))
     ck.cov['full_size_blocks_checked'] = sum(1 for l in lines if l.startswith('{"e":"ablock"'))
     ck.cov['difference_counts'] = [json.loads(l)['what'] for l in lines if l.startswith('{"e":"same"')]
